@@ -899,7 +899,7 @@ func c03Run(sc c03Scenario) (vs []ev.V) {
 			got := 0
 			for i := 0; i < sc.LimitN; i++ {
 				// free permits are granted at once; the time-out only matters when one leaked (generous: the machine may be loaded)
-				ctx, cancel := context.WithTimeout(context.Background(), 1500*time.Millisecond)
+				ctx, cancel := context.WithTimeout(context.Background(), 5*time.Second)
 				err := endp.limits.TakeMsg(ctx, res.ClientIP, d)
 				cancel()
 				if err != nil {
